@@ -17,7 +17,7 @@ def contract(qualname, params=None, returns=None, requires=(), ensures=(), modif
              raises=(), loops=None, locals=None, ghost=None, trusted=False, note="",
              exc_ensures=None, inline=(), pure=False, decreases=None, fresh=False,
              ghost_vars=None, ghost_code=(), ghost_returns=None, raises_when=None, writes_fresh=(),
-             native_ensures=None, native_requires=None):
+             native_ensures=None, native_requires=None, functional=None, internal_ensures=()):
     """Register a contract for the real function `qualname` (module path + function / Class.method).
 
     params    {name: type-string}            types of the symbolic inputs
@@ -37,7 +37,8 @@ def contract(qualname, params=None, returns=None, requires=(), ensures=(), modif
              exc_ensures=dict(exc_ensures or {}), inline=list(inline), pure=bool(pure),
              decreases=decreases, fresh=fresh, ghost_vars=dict(ghost_vars or {}),
              ghost_code=list(ghost_code), ghost_returns=dict(ghost_returns or {}), raises_when=dict(raises_when or {}),
-             writes_fresh=list(writes_fresh), native_ensures=native_ensures, native_requires=native_requires)
+             writes_fresh=list(writes_fresh), native_ensures=native_ensures, native_requires=native_requires,
+             functional=functional, internal_ensures=list(internal_ensures))
     CONTRACTS[qualname] = c
     return c
 
@@ -56,6 +57,15 @@ def classdef(qualname, fields, invariant=()):
 def lemma(name, **kw):
     LEMMAS[name] = dict(name=name, **kw)
     return LEMMAS[name]
+
+
+def opaque(f):
+    """A spec function the verifier keeps folded: occurrences become applications of one uninterpreted
+    function (of the arguments and of the heap fields the body reads) with a single defining axiom, so that two
+    occurrences with the same arguments are the same term instead of two alpha-variants of the body."""
+    f.__pyvc_spec__ = True
+    f.__pyvc_opaque__ = True
+    return f
 
 
 def spec(f):
